@@ -4,7 +4,7 @@ use crate::common::*;
 use crate::gen::*;
 use harper_core::linting::{LintGroup, LintGroupConfig, Linter};
 use harper_core::parsers::{Markdown, Parser, PlainEnglish};
-use harper_core::{Dialect, Document, FstDictionary, TokenKind};
+use harper_core::{Dialect, Dictionary, Document, FstDictionary, TokenKind};
 use harper_stats::{Record, RecordKind, Stats};
 use serde_json::json;
 use std::io::{Cursor, Write};
@@ -164,7 +164,16 @@ pub fn worker(ctx: &mut Ctx) {
                         }
                         content.push_str(r.pick_str(&pieces));
                     }
-                    let kind = match r.below(4) {
+                    let kind = match r.below(7) {
+                        // number tokens at the edges of what the value type and its text form can hold (finite values only:
+                        // non-finite ones are the listed finding)
+                        4 | 5 => {
+                            let v = *r.pick(&[0.0f64, -0.0, 1.0, 3.0, 0.1, 1e15, 9007199254740993.0, 9223372036854775807.0, 9223372036854775808.0, 18446744073709551615.0, 1.8446744073709552e19, 1e21, 1e300,
+                                              f64::MAX, f64::MIN_POSITIVE, 5e-324, -1.0, -9223372036854775809.0, 2.5, 1e-7, 123456789.125]);
+                            let suffix = *r.pick(&[None, None, Some(harper_core::NumberSuffix::Th), Some(harper_core::NumberSuffix::St), Some(harper_core::NumberSuffix::Nd), Some(harper_core::NumberSuffix::Rd)]);
+                            harper_core::TokenKind::Number(harper_core::Number { value: v.into(), suffix, radix: *r.pick(&[10u32, 10, 16]), precision: r.below(4) })
+                        }
+                        6 => harper_core::TokenKind::Word(dict.get_word_metadata_str(r.pick_str(&["colour", "the", "I", "run", "Paris"])).cloned()),
                         0 => harper_core::TokenKind::Word(None),
                         1 => harper_core::TokenKind::Unlintable,
                         2 => harper_core::TokenKind::Space(r.below(5)),
@@ -185,6 +194,21 @@ pub fn worker(ctx: &mut Ctx) {
                     }
                 }
                 c.set_rule_enabled("Unknown \"rule\"\n\u{1F980}\u{7F}\u{85}", true);
+                // keys that are present but hold no value (what `clear` leaves behind, or an editor's `"Rule": null`)
+                match r.below(4) {
+                    0 => {
+                        c.clear();
+                        for key in rule_keys.iter().take(r.below(4)) {
+                            c.set_rule_enabled(key, r.chance(1, 2));
+                        }
+                    }
+                    1 => {
+                        if let Ok(n) = serde_json::from_value::<LintGroupConfig>(json!({"SpellCheck": null, "LongSentences": true, "NoSuchRule": null, "AnA": false})) {
+                            c = n;
+                        }
+                    }
+                    _ => {}
+                }
                 let at = r.below(recs.len() + 1);
                 recs.insert(at, Record::now(RecordKind::LintConfigUpdate(c)));
             }
